@@ -15,23 +15,67 @@ def idxCols : List Expr :=
   [simpleCol "trace_id" "trace_id", simpleCol "span_id" "span_id",
    .col (.call "any" [.raw "duration"]) "duration", .col (.call "any" [.raw "timestamp_ns"]) "timestamp_ns"]
 
-/-- the statement `attrCondition` builds (no portion filter) -/
+/-- the statement `attrCondition` builds (with the portion filter of the context, if any) -/
 def idxSel (c : Ctx) (es : List Expr) (cond : Cond) (aggAttr : String) : Sel :=
   .mk [] false (idxCols ++ aggCol aggAttr) (some (.col (.raw c.attrsTable) "traces_idx")) [] none
-    (some (.logical "and" [windowE c, or_ (es ++ aggWhere aggAttr)])) [.raw "trace_id", .raw "span_id"]
+    (some (.logical "and" ([windowE c, or_ (es ++ aggWhere aggAttr)] ++ randomFilter c))) [.raw "trace_id", .raw "span_id"]
     (some (and_ [(condSql es false cond).1])) [.orderBy (.raw "timestamp_ns") .desc] none
 
 theorem attrCondition_shape (c : Ctx) (terms : List Term) (cond : Cond) (aggAttr : String) (S : Sel)
-    (h : attrCondition c terms cond aggAttr = .ok S) (hr : c.rndMax = 0) :
-    ∃ es, mapOk termSql terms = .ok es ∧ S = idxSel c es cond aggAttr := by
-  unfold attrCondition at h
+    (h : attrCondition c terms cond aggAttr = .ok S) :
+    ∃ es, mapOk termSql terms = .ok es ∧ S = idxSel c es cond aggAttr ∧ terms.length ≤ 64 := by
+  obtain ⟨h64, h⟩ := attrCondition_core h
+  unfold attrConditionCore at h
   cases hm : mapOk termSql terms with
   | error e => simp [hm, bind, Except.bind] at h
   | ok es =>
-    refine ⟨es, rfl, ?_⟩
-    simp [hm, bind, Except.bind, pure, Except.pure, randomFilter, hr] at h
+    refine ⟨es, rfl, ?_, h64⟩
+    simp only [hm, bind, Except.bind, pure, Except.pure, Except.ok.injEq] at h
     rw [← h]
-    rfl
+    cases hrf : randomFilter c with
+    | nil => simp only [idxSel, hrf]; rfl
+    | cons f fs => simp only [idxSel, hrf]; rfl
+
+/-- the portion filter of the context (`cityHash64(trace_id) % N == i`, cached trace ids) lets the index row through;
+    `true` outside complex requests -/
+def portionOk (o : Oracles) (c : Ctx) (a : AttrRow) : Bool := evalAll o [] a.qrow (randomFilter c)
+
+/-- the index as the statement sees it behind its portion filter -/
+def _root_.Qryn.TraceQL.TraceDb.seen (d : TraceDb) (o : Oracles) (c : Ctx) : TraceDb :=
+  { d with attrs := d.attrs.filter (portionOk o c) }
+
+theorem evalEs_raws (o : Oracles) (env env' : Env) (r : Row) (f : String → String) (l : List String) :
+    evalEs o env r (l.map (fun t => Expr.raw (f t))) = evalEs o env' r (l.map (fun t => Expr.raw (f t))) := by
+  induction l with
+  | nil => simp [evalEs]
+  | cons x xs ih => simp [evalEs, evalE, ih]
+
+theorem evalAll_randomFilter_env (o : Oracles) (env : Env) (c : Ctx) (r : Row) :
+    evalAll o env r (randomFilter c) = evalAll o [] r (randomFilter c) := by
+  unfold randomFilter
+  have hin : evalE o env r (.isIn (.raw "trace_id") (c.cached.map (fun t => Expr.raw ("unhex('" ++ t ++ "')")))) =
+      evalE o [] r (.isIn (.raw "trace_id") (c.cached.map (fun t => Expr.raw ("unhex('" ++ t ++ "')")))) := by
+    have := evalEs_raws o env [] r (fun t => "unhex('" ++ t ++ "')") c.cached
+    rcases hc : c.cached with _ | ⟨x, _ | ⟨y, ys⟩⟩
+    · simp [evalE, evalEs]
+    · simp [evalE, evalEs]
+    · rw [hc] at this
+      simp only [List.map_cons] at this ⊢
+      simp only [evalE, this]
+  split
+  · rw [evalAll_cons, evalAll_cons, evalAll_nil, evalAll_nil, evalB_or, evalB_or, evalAny_cons, evalAny_cons,
+      evalAny_cons, evalAny_cons, evalAny_nil, evalAny_nil]
+    simp only [evalB, hin]
+    simp [eq, evalE]
+  · split
+    · simp [evalAll_cons, evalAll_nil, evalB, eq, evalE]
+    · rfl
+
+theorem seen_noFilter (d : TraceDb) (o : Oracles) (c : Ctx) (hr : c.rndMax = 0) : d.seen o c = d := by
+  have : ∀ a, portionOk o c a = true := by
+    intro a; simp [portionOk, randomFilter, hr, evalAll_nil]
+  unfold TraceDb.seen
+  rw [List.filter_eq_self.mpr (fun a _ => this a)]
 
 theorem evalB_window (o : Oracles) (env : Env) (c : Ctx) (a : AttrRow) :
     evalB o env a.qrow (windowE c) = admissible c a := by
@@ -59,10 +103,13 @@ def rowOk (o : Oracles) (env : Env) (c : Ctx) (wh : List Expr) (a : AttrRow) : B
   admissible c a && evalAny o env a.qrow wh
 
 theorem evalB_idxWhere (o : Oracles) (env : Env) (c : Ctx) (wh : List Expr) (a : AttrRow) :
-    evalB o env a.qrow (.logical "and" [windowE c, or_ wh]) = rowOk o env c wh a := by
-  have := evalB_and o env a.qrow [windowE c, or_ wh]
+    evalB o env a.qrow (.logical "and" ([windowE c, or_ wh] ++ randomFilter c)) = (portionOk o c a && rowOk o env c wh a) := by
+  have := evalB_and o env a.qrow ([windowE c, or_ wh] ++ randomFilter c)
   simp only [and_] at this
-  rw [this, evalAll_cons, evalAll_cons, evalAll_nil, evalB_window, evalB_or, Bool.and_true, rowOk]
+  rw [this]
+  simp only [List.cons_append, List.nil_append, evalAll_cons, evalB_window, evalB_or, rowOk, portionOk,
+    evalAll_randomFilter_env o env c a.qrow]
+  cases admissible c a <;> cases evalAny o env a.qrow wh <;> simp
 
 /-- the index rows of span `k` that pass WHERE, as SQL rows -/
 def grpA (o : Oracles) (env : Env) (c : Ctx) (d : TraceDb) (wh : List Expr) (k : SpanKey) : List Row :=
@@ -160,21 +207,24 @@ theorem keyOf_qrow (o : Oracles) (env : Env) (a : AttrRow) :
 /-- the groups of the index scan, up to order: one per span having a row that passes WHERE, kept by HAVING -/
 theorem idx_groups (o : Oracles) (ao : AggOracles) (env : Env) (c : Ctx) (d : TraceDb) (wh : List Expr)
     (H : Option Expr) (cols ob : List Expr) :
-    (groupsG o ao (d.toDb c) env (.col (.raw c.attrsTable) "traces_idx") (some (.logical "and" [windowE c, or_ wh]))
+    (groupsG o ao (d.toDb c) env (.col (.raw c.attrsTable) "traces_idx") (some (.logical "and" ([windowE c, or_ wh] ++ randomFilter c)))
         [.raw "trace_id", .raw "span_id"] H cols ob none).Perm
-      (((dedup ((d.attrs.filter (rowOk o env c wh)).map AttrRow.span)).filter
-          (fun k => havingG o ao env (grpA o env c d wh k) H)).map (grpA o env c d wh)) := by
+      (((dedup (((d.seen o c).attrs.filter (rowOk o env c wh)).map AttrRow.span)).filter
+          (fun k => havingG o ao env (grpA o env c (d.seen o c) wh k) H)).map (grpA o env c (d.seen o c) wh)) := by
   unfold groupsG
   simp only [source_idx, limitG]
-  have hf : (d.attrs.map AttrRow.qrow).filter (fun r => optB o env r (some (.logical "and" [windowE c, or_ wh]))) =
-      (d.attrs.filter (rowOk o env c wh)).map AttrRow.qrow := by
+  have hf : (d.attrs.map AttrRow.qrow).filter (fun r => optB o env r (some (.logical "and" ([windowE c, or_ wh] ++ randomFilter c)))) =
+      ((d.seen o c).attrs.filter (rowOk o env c wh)).map AttrRow.qrow := by
     rw [List.filter_map]
     congr 1
+    simp only [TraceDb.seen, List.filter_filter]
     apply List.filter_congr
     intro a _
-    simp [optB, evalB_idxWhere]
+    have := evalB_idxWhere o env c wh a
+    simp only [List.cons_append, List.nil_append] at this
+    simp [optB, this, Bool.and_comm]
   rw [hf]
-  have hg := groups_of_records (d.attrs.filter (rowOk o env c wh)) AttrRow.qrow AttrRow.span keyV
+  have hg := groups_of_records ((d.seen o c).attrs.filter (rowOk o env c wh)) AttrRow.qrow AttrRow.span keyV
     (fun r => [Expr.raw "trace_id", Expr.raw "span_id"].map (fun k => evalE o env r k)) (keyOf_qrow o env) keyV_inj
   rw [hg, List.filter_map]
   have hk : ∀ (l : List (List Row)), (if ob.isEmpty = true then l else sortBy (grpLe o env cols ob) l).Perm l := by
@@ -254,7 +304,7 @@ theorem stageA_perm (o : Oracles) (ao : AggOracles) (c : Ctx) (d : TraceDb) (own
     (es : List Expr) (aggAttr : String) (hinj : KeyInj (termsOf e))
     (hm : mapOk termSql (analyzeCond [] e).1 = .ok es) (h64 : (analyzeCond [] e).1.length ≤ 64) :
     (evalSelG o ao (d.toDb c) own env0 (idxSel c es (analyzeCond [] e).2 aggAttr)).Perm
-      (((spans c d).filter (spanHolds o c d e)).map (rowA o env0 c d (es ++ aggWhere aggAttr) aggAttr)) := by
+      (((spans c (d.seen o c)).filter (spanHolds o c (d.seen o c) e)).map (rowA o env0 c (d.seen o c) (es ++ aggWhere aggAttr) aggAttr)) := by
   unfold idxSel
   rw [evalSelG_grouped]
   have henv : (if own = true then evalWithsG o ao (d.toDb c) env0 [] else env0) = env0 := by
@@ -263,7 +313,7 @@ theorem stageA_perm (o : Oracles) (ao : AggOracles) (c : Ctx) (d : TraceDb) (own
   have hsub : ∀ x ∈ es, x ∈ es ++ aggWhere aggAttr := fun x hx => List.mem_append_left _ hx
   have h1 := idx_groups o ao env0 c d (es ++ aggWhere aggAttr) (some (and_ [(condSql es false (analyzeCond [] e).2).1]))
     (idxCols ++ aggCol aggAttr) [.orderBy (.raw "timestamp_ns") .desc]
-  have h2 := idx_keys_perm o ao env0 c d e es (es ++ aggWhere aggAttr) hinj hm hsub h64
+  have h2 := idx_keys_perm o ao env0 c (d.seen o c) e es (es ++ aggWhere aggAttr) hinj hm hsub h64
   have h3 := (h1.trans (h2.map _)).map (projG o env0 (idxCols ++ aggCol aggAttr))
   simp only [List.map_map, Function.comp_def] at h3
   exact h3
